@@ -175,6 +175,9 @@ func (c vfCfg) Options(cStore, sStore SessionStore) (co []ClientOption, so []Ser
 		sO = append(sO, WithSupportedProtocols("x", "c", "b"))
 	case 3:
 		cO = append(cO, WithSupportedProtocols("a", "b", "c"))
+	case 4: // nothing in common
+		cO = append(cO, WithSupportedProtocols("a", "b"))
+		sO = append(sO, WithSupportedProtocols("x", "y"))
 	}
 	if c.MTU > 0 {
 		cO = append(cO, WithMTU(c.MTU))
